@@ -27,7 +27,7 @@ ENCODED = [daemons.stop_daemons, daemons.stop_daemon, daemons.spawn_daemons, dae
            daemons.daemon_killer, daemons._runner, daemons._daemon, daemons._timer, daemons._wait_for_instant_exit,
            processing.process_spawning_cause]
 META = {
-    'bounds': 'H1: one daemon; symbolic (flag already set at symbolic age>=0, backoff None|>=0, timeout None|>=0, task done). '
+    'bounds': 'h_stop_stage starts from an arbitrary earlier stage of the termination (signalled / cancelled flags already set). H1: one daemon; symbolic (flag already set at symbolic age>=0, backoff None|>=0, timeout None|>=0, task done). '
               'H1b: one daemon; reaction in {obeys flag after r, exits on cancel after r, ignores both}; symbolic backoff/timeout/r. '
               'H2: one object, one daemon or timer (interval/idle cells); <=3 script steps from {label off, label on, essential edit, '
               'mark deletion, DELETED without deletionTimestamp, pause on, pause off, operator exit} at symbolic gaps (unbounded for the '
